@@ -15,9 +15,9 @@ output — every statement below is about job names, so it covers single and vec
 `wf_runs`, `rerun_fixpoint`, `executed_only_for_missing_history`).
 The pinned commit's deviations are closed counterexamples (D35, D36, D37).
 -/
-import Molli.Model.Jobmap
+import Molli.Lemmas.Jobmap
 namespace Molli.Props.C18
-open Molli.Model.Jobmap
+open Molli.Model.Jobmap Molli.Lemmas.Jobmap
 
 /-! ## one run -/
 
@@ -29,14 +29,6 @@ theorem executed_exactly (src : List Item) (r : Run) (st : St) (j : String) :
       (∃ it ∈ src, st.dest it.key = none ∧ j ∈ jobNames it) ∧ validCache r st j = false := by
   simp only [runRepaired, toRun, todo, List.mem_filter, List.mem_flatMap, Option.isNone_iff_eq_none,
     Bool.not_eq_true', and_assoc]
-
-/-- validity of a cache entry, spelled out (strict hash check, the default) -/
-theorem validCache_iff (r : Run) (st : St) (j : String) (hs : r.strict = true) :
-    validCache r st j = true ↔ ∃ e, st.cache j = some e ∧ e.tag = r.tag ∧ e.code = 0 := by
-  unfold validCache
-  cases st.cache j with
-  | none => simp
-  | some e => simp [hs]
 
 /-- "a cached output from a different input or a failed run is not reused" -/
 theorem invalid_cache_not_reused (src : List Item) (r : Run) (st : St) (hs : r.strict = true) (j : String) (e : Ent)
@@ -75,16 +67,6 @@ theorem executed_once (src : List Item) (r : Run) (st : St) (j : String) :
     have h' : j ∉ toRun src r st := h
     simp only [runRepaired, h', if_false, and_self]
 
-theorem find_todo (src : List Item) (st : St) (k : String) (hk : st.dest k = none) :
-    (todo src st).find? (fun it => it.key == k) = src.find? (fun it => it.key == k) := by
-  unfold todo
-  rw [List.find?_filter]
-  congr 1
-  funext it
-  by_cases h : it.key = k
-  · subst h; simp [hk]
-  · simp [h]
-
 /-- "fills the destination with exactly the processed results of the items whose commands succeeded … and keys
 present only in the destination are left alone": entry by entry, the destination after the run is the old
 entry if there was one, else the processed result of the source item with that key provided all its outputs are
@@ -101,41 +83,6 @@ theorem dest_exactly (src : List Item) (r : Run) (st : St) (k : String) :
   | none =>
     simp only [runRepaired, hk, find_todo src st k hk]
     cases src.find? (fun it => it.key == k) <;> rfl
-
-/-- when is an item stored: all of its jobs have an output with exit code 0 and the requested file -/
-theorem postOf_isSome_iff (cache : String → Option Ent) (r : Run) (it : Item) :
-    (postOf .repaired cache r it).isSome ↔
-      ∀ j ∈ jobNames it, ∃ e, cache j = some e ∧ e.code = 0 ∧ e.payload.isSome := by
-  unfold postOf
-  simp only
-  split
-  · rename_i h
-    simp only [Option.isSome_some, true_iff]
-    intro j hj
-    rw [List.all_eq_true] at h
-    have := h (cache j) (List.mem_map.mpr ⟨j, hj, rfl⟩)
-    cases hc : cache j with
-    | none => rw [hc] at this; cases this
-    | some e =>
-      rw [hc] at this
-      simp at this
-      exact ⟨e, rfl, this.1, by simpa using this.2⟩
-  · rename_i h
-    simp only [Option.isSome_none, Bool.false_eq_true, false_iff]
-    intro hall
-    apply h
-    rw [List.all_eq_true]
-    intro x hx
-    obtain ⟨j, hj, rfl⟩ := List.mem_map.mp hx
-    obtain ⟨e, he, hc, hp⟩ := hall j hj
-    rw [he]; simp [hc, hp]
-
-/-- an executed job has a usable output iff its command exited 0 and wrote the requested file -/
-theorem entOf_usable_iff (r : Run) (j : String) (a : Nat) :
-    ((entOf r j a).code = 0 ∧ (entOf r j a).payload.isSome) ↔ outcome (r.plan j) a = (0, true) := by
-  unfold entOf
-  rcases h : outcome (r.plan j) a with ⟨c, w⟩
-  cases w <;> by_cases hc : c = 0 <;> simp [hc]
 
 /-- "keys present only in the destination are left alone" (and so is every other existing entry) -/
 theorem dest_only_keys_untouched (src : List Item) (r : Run) (st : St) (k v : String) (h : st.dest k = some v) :
